@@ -1174,8 +1174,10 @@ LEVEL_TEXT = (
     "Lean theorems for all worlds and all values at AST level: the expression the serializer emits, evaluated in the namespace "
     "its own import lines create, yields a value Python-equal to the original (code_rt_partial), and every name it uses is bound "
     "to the class it means (imports_sufficient_partial), outside four explicitly excluded regions each of which is a proved "
-    "counterexample (nested enum, non-empty tuple, unescaped QName text, same class name from two modules); the model is tied to "
-    "/repo by comparing the exact emitted text and the exec outcome on generated dataclasses and values."
+    "counterexample (nested enum, non-empty tuple, unescaped QName text, same class name from two modules); with the three proposed "
+    "one-line repairs the value-level exclusions disappear (code_rt_patched). The model is tied to /repo by comparing the exact "
+    "emitted text and the exec outcome on generated dataclasses and values, and the theorem's claim is re-checked on the real code "
+    "wherever its hypotheses hold."
 )
 LEVEL_NOTE = (
     "Trusted: Lean kernel; CPython's parsing of the emitted text into the modelled AST and the repr/eval round trip of str, bytes, "
